@@ -144,7 +144,7 @@ func init() {
 
 	eng.Register(&eng.Scenario{
 		Name: "ioseek-faults", Props: []string{"C20"}, NoRace: true,
-		Doc: "ioseek.ReaderAtSeeker over a wrapped ReaderAt that, on its k-th call (every k), returns a partial read together with a non-EOF error or a short read without error: every sequence of 3 (4 thorough) calls over Seek / Read; position and data follow the offset+slice model (the position advances by the returned count)",
+		Doc: "ioseek.ReaderAtSeeker over a wrapped ReaderAt that, on its k-th call (every k), returns a partial read together with a non-EOF error, with io.ErrUnexpectedEOF or with a premature io.EOF: every sequence of 3 (4 thorough) calls over Seek / Read; position and data follow the offset+slice model (the position advances by the returned count)",
 		Direct: func(rep *eng.DirectReport, shard, nshards int, thorough bool) {
 			data := []byte{10, 11, 12, 13, 14, 15, 16, 17}
 			type letter struct {
@@ -167,7 +167,7 @@ func init() {
 				depth = 4
 			}
 			for faultAt := 1; faultAt <= depth; faultAt++ {
-				for mode := 0; mode < 2; mode++ {
+				for mode := 0; mode < 3; mode++ {
 					faultAt, mode := faultAt, mode
 					enumSeq(depth, len(letters), shard, nshards, func(seq []int) {
 						rep.Cases++
@@ -180,6 +180,9 @@ func init() {
 								faulted = true
 								if mode == 0 {
 									return n - 1, errStream // partial read with an error
+								}
+								if mode == 2 {
+									return n - 1, io.EOF // the wrapped reader ends early once: the declared size stays what it is
 								}
 								return n - 1, io.ErrUnexpectedEOF
 							}
